@@ -2,7 +2,8 @@
 # Offline build of the whole framework from files on disk: translators, full .vo build.
 set -e
 cd "$(dirname "$0")"
-export PYTHONPATH="/repo:$(pwd)" PYTHONHASHSEED=0 PYTHONDONTWRITEBYTECODE=1
+export YV_REPO="${YV_REPO:-/repo}"
+export PYTHONPATH="$YV_REPO:$(pwd)" PYTHONHASHSEED=0 PYTHONDONTWRITEBYTECODE=1
 mkdir -p evidence/replay ocaml/build coq/Gen
 /venv/bin/python -m harness.regen_all
 cd coq
